@@ -1,4 +1,4 @@
-PROPS = ["CTV.Props.C20"]
+PROPS = ["CTV.Props.C20", "CTV.Props.C20Tie"]
 HARNESS = [dict(pkg="./trillian/migrillian/core/", test="TestVerifC20", race=True, synctest=True, timeout=1500)]
 RULE = ("migrations by the real core.Controller (Run and RunWhenMaster) from an in-memory source log served through an http.RoundTripper and the real "
         "client.LogClient into a reference pre-ordered destination behind a function-field TrillianLogClient, under virtual time and -race: source sizes "
